@@ -156,6 +156,8 @@ def work_lemma(repo, ct, name: str, prop: str, tier: str, out: Dict[str, Any], t
     lc = LemmaCtx(ct, name, lem.props)
     lem.fn(lc)
     base = M.base_axioms()
+    for fn_ in REG.axiom_fns:
+        base += fn_(ct)
     out.update(sha256="", paths=0, unsupported=None, assumptions=[], opaque_calls=[], inlined=[],
                exec_s=0.0, n_obligations=len(lc.obligations), is_lemma=True)
 
